@@ -197,7 +197,7 @@ func engineC19Cosine(ctx *Ctx) {
 				Detail: fmt.Sprintf("CosineSimilarity(a,b)=%v but CosineSimilarity(b,a)=%v", s1, s2), Witness: cs})
 		}
 		for _, s := range []float64{s1, s2, sa, sb} {
-			if !(s >= -1-1e-9 && s <= 1+1e-9) && !mustZero { // NaN / Inf fall here
+			if !(s >= -1 && s <= 1) && !mustZero { // NaN / Inf fall here
 				ctx.R.Violate(vlib.Violation{Property: "C19", Clause: "cosine-range", Path: class,
 					Detail: fmt.Sprintf("CosineSimilarity on finite vectors = %v, outside [-1,1]", s), Witness: cs})
 				break
